@@ -28,3 +28,8 @@ claim("C09",
       "Every token sequence up to a stated length and random (also mutated, almost-valid) sequences are compared with whitespace / keyword-case variants: equal acceptance and identical trees. Printed trees (explicit and juxtaposed) are compared with variants carrying redundant parentheses around the whole query, operands of explicit operators, group bodies and field values: the variant must parse to the identical tree. Both default-field modes.",
       "Whitespace is only changed at harness token boundaries and only removed where one neighbour is a one-character symbol other than '-'.",
       "DESIGN.md section 4, C09")
+claim("C06",
+      "exhaustive token-sequence enumeration + mutated prints; derivation matcher over every accepted input",
+      "Every token sequence up to a stated length over the full alphabet and over focus alphabets (Boolean/grouping, ranges/brackets, unary operators), random printed trees and their 1-3-token mutations, with and without a default field: whenever Parse accepts, a memoised matcher must find a derivation of the harness's token sequence from the returned tree in the documented grammar (each term token exactly one typed leaf, in order; each operator token consumed by one node of the matching kind; brackets pair around non-empty groups).",
+      "The matcher is the trusted executable grammar; precedence is ignored (any derivation counts) so C06 cannot raise C05/C07 alarms; token meanings come from construction or from the harness's value-decoding spec M1.",
+      "DESIGN.md section 4, C06")
